@@ -76,6 +76,10 @@ def _ordinal(variant, ptype, pos, extra_requires, extra_hooks):
                  ("after", "super().__init__...", "use sorted_enumeration_unique(s=seqof(CATS()), t=lam(a, labels[IDX[a]]), n=N, k=N)"),
                  ("after", "super().__init__...", "assert forall(a, 0, N, seqof(CATS())[a] == labels[IDX[a]])"),
                  ("after", "super().__init__...", "assert forall(k, 0, N, rankof(k) == INV[k] and 0 <= INV[k] and INV[k] < N and IDX[INV[k]] == k)"),
+                 ("after", "super().__init__...", "assert forall(a, 0, N, forall(b, 0, N, self._matrix[a][b] * MAXV == abs(P(IDX[a]) - P(IDX[b])) and "
+                                                  "abs(P(IDX[a]) - P(IDX[b])) <= MAXV))"),
+                 ("after", "super().__init__...", "assert forall(k, 0, N, forall(m, 0, N, self._matrix[INV[k]][INV[m]] * MAXV == abs(P(k) - P(m)) and "
+                                                  "abs(P(k) - P(m)) <= MAXV))"),
              ],
              serves={"C04"})
 
